@@ -219,6 +219,11 @@ def mk_plan(rng, benign):
             plan["rules"].append({"id": "es", "call": "write", "pat": "<stderr>", "nth": "*", "act": "short:" + ",".join(str(rng.choice([1, 7, 24, 40])) for _ in range(3))})
         if rng.chance(1, 3):
             plan["rules"].append({"id": "ee", "call": "write", "pat": "<stderr>", "nth": "%2:1", "act": "eintr"})
+    # nobody reads the report: every write to stderr fails (EPIPE: the reader has gone away; EIO).  The message cannot be
+    # carried then, but the program must still stop and fail.  (A stream of its own: the other choices stay what they were.)
+    sub = Rng(derive(int(plan["seed"][:16], 16), "stderr-dead"))
+    if sub.chance(1, 8):
+        plan["rules"].append({"id": "hd", "call": "write", "pat": "<stderr>", "nth": "1+", "act": "errno:" + sub.choice(["EPIPE", "EIO"])})
     return plan
 
 
@@ -458,6 +463,19 @@ def run_case(case):
             return failr("wrong-result", "line %d: expected %r, got %r" % (d + 1, exp[d] if d < len(exp) else None, lines[d] if d < len(lines) else None), e)
     else:
         err = core.text(e["err"])
+        stderr_dead = any(ev["rule"] == "hd" for ev in e["events"])
+        if stderr_dead:
+            # the report has nowhere to go: no message can be demanded and a panic over the failed write is not the program's
+            # failure mode — but the foreign call still failed: the exit status says so and nothing after it runs
+            if e["rc"] == 0:
+                return failr("fault-ignored", "exit 0 although call %d must fail (%s) — stderr could not be written" % (fail["at"], fail["needle"]), e)
+            if lines[:len(exp)] != exp:
+                return failr("lost-output", "output before the failing call is not intact: expected %r, got %r" % (exp, lines), e)
+            if len(lines) > len(exp):
+                return failr("continued-after-fault", "instructions after the failing call ran: extra output %r" % lines[len(exp):][:3], e)
+            st_ = finish(procs)
+            st_.setdefault("probes", {})["report_could_not_be_written_stderr_dead"] = 1
+            return {"ok": True, "stats": st_}
         if e["rc"] == 0:
             return failr("fault-ignored", "exit 0 although call %d must fail (%s); stdout: %r" % (fail["at"], fail["needle"], lines[-3:]), e)
         if e["rc"] < 0 or e["rc"] == 101 or "panicked at" in err:
